@@ -40,6 +40,10 @@ def run(tier):
             raise AnalysisBroken('C13: %d driver leaves, %d gsrfs leaves' % (n, n2))
         from ..rules import kernels as _k
         _k.leading_dimension_agreement(chk, 'C13.ld', prog, [q + 'gsrfs' for q in 'sdcz'], cfgname, floor=8)
+        from ..rules import cond as _cond
+        chk.clause('C13.est', 'the norm estimate behind FERR is a magnitude by construction')
+        for _p in 'sdcz':
+            _cond.estimate_nonnegative_rule(chk, 'C13.est', prog, _p, cfgname)
         refine.matvec_pairing_rule(chk, 'C13.pair', prog, [q + 'gsrfs' for q in 'sdcz'] + ['sp_%sgemv' % q for q in 'sdcz'], cfgname, floor=8)
         if cfgname == 'tested':
             r9_sibling.run(chk, prog, 'C13.D4', {p + u for p in 'dz' for u in R9_UNITS}, cfgname)
